@@ -166,6 +166,7 @@ func init() {
 		defer out.close()
 		e := vNewAofEnv(out)
 		defer os.RemoveAll(e.root)
+		e.aof.inited = true // a compaction runs on an initialised Aof (the start-up-only repair of torn tails is off)
 		// a real LockDB whose background loops exit at once (created while the server state is CLOSE): the harness owns its clock
 		e.slock.state = STATE_CLOSE
 		db := NewLockDB(e.slock, 0)
